@@ -5,7 +5,8 @@ usage: mutate.py [name-substring] [--tier quick|thorough]"""
 import json, os, subprocess, sys, shutil, tempfile
 
 ENV = dict(os.environ, GOFLAGS="-mod=mod", GOPROXY="off", GOSUMDB="off", GOTOOLCHAIN="local")
-muts = json.load(open("/verif/mutants/mutants.json"))
+ROOT = os.path.dirname(os.path.dirname(os.path.abspath(__file__)))
+muts = json.load(open(os.path.join(ROOT, "mutants/mutants.json")))
 flt = [a for a in sys.argv[1:] if not a.startswith("--")]
 tier = "quick"
 if "--thorough" in sys.argv: tier = "thorough"
@@ -33,13 +34,13 @@ for m in muts:
         ov = os.path.join(scratch, "overlay.json")
         json.dump(overlay, open(ov, "w"))
         binp = os.path.join(scratch, "mc")
-        r = subprocess.run(["go", "build", "-tags", "verif", "-overlay", ov, "-o", binp, "./cmd/mc"], cwd="/verif", env=ENV, capture_output=True, text=True)
+        r = subprocess.run(["go", "build", "-tags", "verif", "-overlay", ov, "-o", binp, "./cmd/mc"], cwd=ROOT, env=ENV, capture_output=True, text=True)
         if r.returncode != 0:
             print(m["name"], "BUILD FAILED", r.stderr[-2000:]); results.append((m["name"], "BUILDFAIL")); continue
-        shutil.copy("/verif/known_findings.json", scratch)
+        shutil.copy(os.path.join(ROOT, "known_findings.json"), scratch)
         for prop in m["props"]:
             env = dict(ENV, VERIF_DIR=scratch, VERIF_BUDGET_S=os.environ.get("VERIF_BUDGET_S", "150"))
-            r = subprocess.run([binp, "check", prop, tier], cwd="/verif", env=env, capture_output=True, text=True)
+            r = subprocess.run([binp, "check", prop, tier], cwd=ROOT, env=env, capture_output=True, text=True)
             viol = [l for l in r.stdout.splitlines() if l.startswith("VIOLATION")]
             mons = [l.strip() for l in r.stdout.splitlines() if l.strip().startswith("monitor=")]
             status = "DETECTED" if r.returncode == 1 and viol else f"MISSED(exit={r.returncode})"
